@@ -41,27 +41,33 @@ Qed.
 Lemma blen_strip ch s : blen (strip ch s) <= blen s.
 Proof. unfold strip. pose proof (blen_rstrip ch (lstrip ch s)). pose proof (blen_lstrip ch s). lia. Qed.
 
-(* ---------- clause 1: the allowedLength formula ---------- *)
-(* Full statement: forall k p, payload within the room reply() computes -> relayed line within 512 bytes.
-   It holds in full for plain replies, in a channel or a query, whatever the prefix/target/nick
-   (repair of F41/F42) and for private=True with to=<nick>; reply() still derives the recipient
-   and the "nick: " reserve by its own rules, which differ from what _makeReply() does when
-   private=True is used without to=, when to= is used without private, or when reply.inPrivate
-   is set (finding F43).  The exact decidable domain: what _makeReply really puts around the
-   payload is covered by what reply() reserved. *)
-Definition env_ok (k : cfg) : bool :=
-  blen (real_target k) + blen (nick_prefix k) + blen (cmd_of k)
-  <=? blen (reserve_recipient k) + 7 + (if c_prefixNick k then blen (c_nick k) + 2 else 0).
-
+(* ---------- clause 1: the allowedLength formula (full since the F41/F42 and F43 repairs) ---------- *)
+(* For every reply configuration -- prefix/target/nick of any code points, channel or query,
+   private=/to=/notice= keywords, reply.inPrivate/withNotice -- a payload within the room reply()
+   computes gives a relayed line within 512 bytes: reply() now asks _makeReply() for the recipient
+   and reserves the "nick: " prefix for `to or msg.nick`. *)
 Lemma allowed_length_room k :
   allowed_length k = if c_length k =? 0 then line_room k else Z.of_N (c_length k).
 Proof. reflexivity. Qed.
 
+Lemma blen_cmd_of k : blen (cmd_of k) <= 7.
+Proof. unfold cmd_of. destruct (_ || _ || _); [change (blen s_notice) with 6|change (blen s_privmsg) with 7]; lia. Qed.
+
+Lemma blen_nick_prefix k :
+  blen (nick_prefix k) <=
+  (if c_prefixNick k then blen (match c_to k with Some t => t | None => c_nick k end) + 2 else 0).
+Proof.
+  unfold nick_prefix. destruct T_nicksep as [Hns _].
+  destruct (c_prefixNick k); cbn [andb]; [|cbn; lia].
+  destruct (negb (eff_private k) && target_public k && negb _); [rewrite blen_app, Hns; lia|cbn; lia].
+Qed.
+
 Theorem line_fits_room : forall k p,
-  env_ok k = true -> nonempty (strip [1] p) = true -> (Z.of_N (blen p) <= line_room k)%Z ->
+  nonempty (strip [1] p) = true -> (Z.of_N (blen p) <= line_room k)%Z ->
   line_fits k (makeReply k p) = true.
 Proof.
-  intros k p He Hne Hp. unfold line_room in Hp. unfold env_ok in He. apply N.leb_le in He.
+  intros k p Hne Hp. unfold line_room, reserve_recipient in Hp.
+  pose proof (blen_cmd_of k) as Hc. pose proof (blen_nick_prefix k) as Hn.
   destruct T_nicksep as [Hns1 Hns2]. rewrite Hns2, T_line_max, T_fixed in Hp.
   pose proof (blen_strip [1] p) as Hst.
   remember (strip [1] p) as sp eqn:Es.
@@ -72,73 +78,35 @@ Proof.
   cbn [blen] in Hst. destruct (c_prefixNick k); lia.
 Qed.
 
-Theorem line_fits_on_domain : forall k p,
-  env_ok k = true -> c_length k = 0 -> nonempty (strip [1] p) = true ->
+(* (c_length = 0: the bot computes the budget itself; a configured length is the administrator's choice) *)
+Theorem line_fits_full : forall k p,
+  c_length k = 0 -> nonempty (strip [1] p) = true ->
   (Z.of_N (blen p) <= allowed_length k)%Z ->
   line_fits k (makeReply k p) = true.
 Proof.
-  intros k p He Hlen Hne Hp. rewrite allowed_length_room, Hlen in Hp. cbn [N.eqb] in Hp.
+  intros k p Hlen Hne Hp. rewrite allowed_length_room, Hlen in Hp. cbn [N.eqb] in Hp.
   apply line_fits_room; assumption.
 Qed.
 
-(* the domain contains every plain reply (no private/to keyword, reply.inPrivate off), in a channel
-   or in a query, whatever the strings ... *)
-Lemma blen_cmd_of k : blen (cmd_of k) <= 7.
-Proof. unfold cmd_of. destruct (_ || _ || _); [change (blen s_notice) with 6|change (blen s_privmsg) with 7]; lia. Qed.
-
-Theorem env_ok_plain_reply : forall k,
-  c_private k = false -> c_inPrivate k = false -> c_to k = None -> env_ok k = true.
-Proof.
-  intros k Hp Hi Ht. unfold env_ok. apply N.leb_le. pose proof (blen_cmd_of k) as Hc.
-  unfold real_target, nick_prefix, reserve_recipient, target_public, eff_private.
-  rewrite Hp, Hi, Ht. cbn [orb negb andb].
-  destruct T_nicksep as [Hns1 _].
-  destruct (c_public k), (c_prefixNick k); cbn [andb orb negb]; rewrite ?blen_app, ?Hns1; cbn [blen]; lia.
-Qed.
-
-(* ... and every private=True reply with an explicit to= *)
-Theorem env_ok_private_to : forall k t,
-  c_private k = true -> c_to k = Some t -> env_ok k = true.
-Proof.
-  intros k t Hp Ht. unfold env_ok. apply N.leb_le. pose proof (blen_cmd_of k) as Hc.
-  unfold real_target, nick_prefix, reserve_recipient, target_public, eff_private.
-  rewrite Hp, Ht. cbn [orb negb andb]. rewrite andb_false_r. cbn [andb blen]. destruct (c_prefixNick k); lia.
-Qed.
-
-(* b!u@h answers alice: (B) private=True given in #c, withNickPrefix off; (D) to=bobbybobby given in #c *)
+(* the old refuting environments -- F41 (#é), F42 (query from alice to b), F43 (private=True given in #c
+   by alice with withNickPrefix off; to=bobbybobby given in #c by a) -- with a payload that fills the room *)
+Definition k_nonascii : cfg :=
+  Cfg [98; 33; 117; 64; 104] [35; 233] [97] true false true true 0 50 1 false false None false false false.
+Definition k_private : cfg :=
+  Cfg [98; 33; 117; 64; 104] [98] [97; 108; 105; 99; 101] false false false true 0 50 1 false false None false false false.
 Definition k_private_chan : cfg :=
   Cfg [98; 33; 117; 64; 104] [35; 99] [97; 108; 105; 99; 101] true false true true 0 50 1
       true false None false false false.
 Definition k_to_nick : cfg :=
   Cfg [98; 33; 117; 64; 104] [35; 99] [97] true true true true 0 50 1
       false false (Some [98; 111; 98; 98; 121; 98; 111; 98; 98; 121]) false false false.
-
 Definition room_payload (k : cfg) : str := repeat 121 (Z.to_nat (line_room k)).
 
-Theorem line_fits_refuted :
-  (env_ok k_private_chan = false /\ c_length k_private_chan = 0 /\
-   (Z.of_N (blen (room_payload k_private_chan)) <= allowed_length k_private_chan)%Z /\
-   line_fits k_private_chan (makeReply k_private_chan (room_payload k_private_chan)) = false) /\
-  (env_ok k_to_nick = false /\ c_length k_to_nick = 0 /\
-   (Z.of_N (blen (room_payload k_to_nick)) <= allowed_length k_to_nick)%Z /\
-   line_fits k_to_nick (makeReply k_to_nick (room_payload k_to_nick)) = false).
-Proof. repeat split; vm_compute; try reflexivity; discriminate. Qed.
-
-Definition k_nonascii : cfg :=
-  Cfg [98; 33; 117; 64; 104] [35; 233] [97] true false true true 0 50 1 false false None false false false.      (* b!u@h, #é, a *)
-Definition k_private : cfg :=
-  Cfg [98; 33; 117; 64; 104] [98] [97; 108; 105; 99; 101] false false false true 0 50 1 false false None false false false.  (* query from alice to b *)
-
-(* the two old refuting environments (F41, F42) are in the domain and fit *)
-Definition y490 : str := repeat 121 490.
-Definition y488 : str := repeat 121 488.
 Example line_fits_nonvacuous :
-  env_ok k_nonascii = true /\ env_ok k_private = true /\
-  (Z.of_N (blen y490) <= allowed_length k_nonascii)%Z /\
-  line_fits k_nonascii (makeReply k_nonascii y490) = true /\
-  (Z.of_N (blen y488) <= allowed_length k_private)%Z /\
-  line_fits k_private (makeReply k_private y488) = true.
-Proof. repeat split; vm_compute; try reflexivity; discriminate. Qed.
+  forallb (fun k => (0 <? line_room k)%Z && (Z.of_N (blen (room_payload k)) =? line_room k)%Z &&
+                    line_fits k (makeReply k (room_payload k)))
+          [k_nonascii; k_private; k_private_chan; k_to_nick] = true.
+Proof. vm_compute. reflexivity. Qed.
 
 (* ---------- clause 2: the "(XX more messages)" reserve ---------- *)
 (* Full statement: forall n >= 1, blen (suffix n n) <= MORE_RESERVE.  Since the F12 repair
